@@ -344,6 +344,29 @@ for pos, body, pasted in (
         P('inc_' + sfx, [], [], macro=mac, pre=SRC2 % nm, body=['pub struct P;'] + [b.replace('SRCNAME', nm) for b in body], tags=['twin'],
           twin=('inc_pasted_' + sfx, 'C'))
         P('inc_pasted_' + sfx, [], [], macro=mac, body=['pub struct P;'] + pasted, tags=['twin'])
+# a disjunction inside a macro body whose locals are private to one disjunct each
+MACD = ['macro alt($a: expr, $b: expr) { (edge($a, t1), p(t1, $b) | p($a, t2), edge(t2, $b)) }',
+        'macro alt2($a: expr, $b: expr) { k($a), (alt!($a, m) | edge($a, m)), edge(m, $b) }']
+both('t_macd_sugar', MC, [], body=['pub struct P;'] + [d + ';' for d in MC] + MACD + [
+     'r(x, z) <-- alt!(x, y), alt!(y, z);',
+     'r(t1, z) <-- k(t1), alt!(t1, z);',
+     'b(x, z) <-- alt2!(x, y), alt2!(y, z);'], tags=['twin'], twin=('t_macd_core', 'L'))
+both('t_macd_core', MC,
+     ['r(x, z) <-- edge(x, a1), p(a1, y), edge(y, a2), p(a2, z)',
+      'r(x, z) <-- edge(x, a1), p(a1, y), p(y, b2), edge(b2, z)',
+      'r(x, z) <-- p(x, b1), edge(b1, y), edge(y, a2), p(a2, z)',
+      'r(x, z) <-- p(x, b1), edge(b1, y), p(y, b2), edge(b2, z)',
+      'r(t1, z) <-- k(t1), edge(t1, a1), p(a1, z)',
+      'r(t1, z) <-- k(t1), p(t1, b1), edge(b1, z)',
+      'b(x, z) <-- k(x), edge(x, a1), p(a1, m1), edge(m1, y), k(y), edge(y, a2), p(a2, m2), edge(m2, z)',
+      'b(x, z) <-- k(x), edge(x, a1), p(a1, m1), edge(m1, y), k(y), p(y, b2), edge(b2, m2), edge(m2, z)',
+      'b(x, z) <-- k(x), edge(x, a1), p(a1, m1), edge(m1, y), k(y), edge(y, m2), edge(m2, z)',
+      'b(x, z) <-- k(x), p(x, b1), edge(b1, m1), edge(m1, y), k(y), edge(y, a2), p(a2, m2), edge(m2, z)',
+      'b(x, z) <-- k(x), p(x, b1), edge(b1, m1), edge(m1, y), k(y), p(y, b2), edge(b2, m2), edge(m2, z)',
+      'b(x, z) <-- k(x), p(x, b1), edge(b1, m1), edge(m1, y), k(y), edge(y, m2), edge(m2, z)',
+      'b(x, z) <-- k(x), edge(x, m1), edge(m1, y), k(y), edge(y, a2), p(a2, m2), edge(m2, z)',
+      'b(x, z) <-- k(x), edge(x, m1), edge(m1, y), k(y), p(y, b2), edge(b2, m2), edge(m2, z)',
+      'b(x, z) <-- k(x), edge(x, m1), edge(m1, y), k(y), edge(y, m2), edge(m2, z)'], tags=['twin'])
 # ---- S-level: permutations / renamings (both sides are translation-validated; their specs are equal as sets)
 both('t_perm_rules', [E2, 'relation path(i32, i32)'], ['path(x, z) <-- edge(x, y), path(y, z)', 'path(x, y) <-- edge(x, y)'],
      tags=['twin'], twin=('tc_lin', 'L'))
@@ -610,3 +633,27 @@ for _seed in range(1, 61):
         P('fam_rand_%02d' % _seed, _d, _r, macro='ascent_par', attrs=_attrs, tags=['family', 'rand'] + (['timeout'] if _attrs else []))
     else:
         P('fam_rand_%02d' % _seed, _d, _r, attrs=_attrs, tags=['family', 'rand'] + (['timeout'] if _attrs else []))
+
+
+# ================================================================ crates: the corpus is split by family so that a change of /repo that makes
+# some well-formed programs fail to compile (reported by C15) does not take the verdicts of the other checks away
+def _crate_of(p):
+    t = set(p.get('tags', []))
+    n = p['name']
+    if n.startswith('fam_rand'):
+        digits = ''.join(ch for ch in n if ch.isdigit())
+        return 'corpus_rand%d' % (int(digits) % 3)
+    if 'twin' in t:
+        return 'corpus_twins'
+    if t & {'eqrel', 'trrel', 'trrel_uf'}:
+        return 'corpus_byods'
+    if 'lattice' in t:
+        return 'corpus_lat'
+    if t & {'agg', 'neg', 'timeout'}:
+        return 'corpus_strata'
+    return 'corpus_core'
+
+
+for _p in PROGRAMS:
+    _p.setdefault('crate', _crate_of(_p))
+
